@@ -154,7 +154,7 @@ pub fn run_sql_case_in(case: &SqlReplay, idx: u64, dir: &std::path::Path) -> Run
         }
         Ok(mut sim) => {
             sim.allow_oom = case.allow_oom;
-            sim.page_audit = case.property == "C11";
+            sim.page_audit = case.property == "C11" || case.property == "C13";
             res.violation = sim.run(&case.events);
             axmosdb::verif::io::mark("history-end");
             let stats = sim.finish();
